@@ -68,6 +68,14 @@ def run(rep, tier, seed, replay):
                               {"expr": e, "what": "wrappers"}, impl="ore=%s ort=%s" % (fa["ore"][:120], fa["ort"][:120]), spec="%s | %s" % (exp_e[:120], exp_t[:120]))
             else:
                 rep.stats["wrappers agree with partition"] += 1
+        # a glob that owns its expression (into_owned, FromStr) partitions like the borrowed one: the same prefix and a
+        # postfix that displays as the same suffix, with the same tokens, program and capture spans
+        if "owned" in fa:
+            if fa["owned"] == "same":
+                rep.stats["owned globs partition like borrowed ones"] += 1
+            else:
+                rep.violation("oracle", "a glob that owns its expression partitions differently from the borrowed glob (the postfix must display as the corresponding suffix of the expression)",
+                              {"expr": e, "what": "owned"}, impl=fa["owned"][:300])
         reproduced = a.startswith(b) and b != "err"
         if not reproduced:
             rep.stats["correspondence-broken"] += 1
